@@ -315,6 +315,8 @@ def _multigraph(spec):
 
 RULE = RULE + " " + ("Since seeded round 4 the dxdtf facet calls the SAME function object returned by make_dxdtf up to four more times at other states (per-species multipliers 0, 0.5, 1, 2, 3 of the system's state) and once more at the first state, each call against the reference law (an integrator does exactly this).")
 
+RULE = RULE + " " + ('Since seeded round 5 one Euler-step case in three starts from a state in which every cell holds exactly the same amount of each species (bit-equal floats in cells of different volume are different concentrations).')
+
 FACETS = [
     Facet("kinetics", check_kinetics, strategy=strat_kinetics, examples=(640, 6000), shards=(16, 16)),
     Facet("dxdtf", check_dxdtf, strategy=strat_dxdtf, examples=(1200, 16000), shards=(4, 16)),
